@@ -24,6 +24,7 @@ PY = sys.executable
 PROGRAMS = {
     'nostl': (';code\nIO:\n;0\ncode:\n' + ''.join(f'IO+{b};\n' for b in [(0x48 >> i) & 1 for i in range(8)]) + 'end:\n;end\n', True, b'', b'H'),
     'hello': ('stl.startup\nstl.output "Hi\\n"\nstl.loop\n', False, b'', b'Hi\n'),
+    'width': ('stl.startup\nstl.output_char \'0\' + w / 8\nstl.output_char \'\\n\'\nstl.loop\n', False, b'', None),
     'cat': ('stl.startup\nloop:\nbit.input ch\nbit.if0 8, ch, end\nbit.print ch\n;loop\nend:\nstl.loop\nch: bit.vec 8, 0\n', False, b'ab\x00', b'ab'),
 }
 
@@ -38,10 +39,10 @@ def cli(args, stdin=b'', cwd=None):
 def configs(tier):
     if tier == 'thorough':
         dom = dict(w=(16, 32, 64), v=(None, 0, 1, 2, 3), d=(None, 'path', 'bare'), werror=(False, True), preset=(None, 0, 9), silent=(True, False))
-        progs = ('nostl', 'hello', 'cat')
+        progs = ('nostl', 'hello', 'cat', 'width')
     else:
         dom = dict(w=(32, 64), v=(None, 0, 1, 2, 3), d=(None, 'path', 'bare'), werror=(False,), preset=(None, 0, 9), silent=(True, False))
-        progs = ('nostl', 'hello', 'cat')
+        progs = ('nostl', 'hello', 'cat', 'width')
     out = []
     for prog in progs:
         for w, v, d, we, pr, s in itertools.product(dom['w'], dom['v'], dom['d'], dom['werror'], dom['preset'], dom['silent']):
@@ -101,9 +102,41 @@ def api_run(fjm, stdin):
     return str(st.termination_cause), dev.get_output(allow_incomplete_output=True)
 
 
+def api_wrappers(src, w, version, no_stl, werror, stdin, exp_out):
+    import flipjump
+    from flipjump.fjm.fjm_consts import FJMVersion
+    from flipjump.interpreter.io_devices.FixedIO import FixedIO
+    from fjv.asm import quiet
+    out = {}
+    for name in ('assemble_and_run', 'assemble_and_debug'):
+        fn = getattr(flipjump, name, None)
+        if fn is None:
+            continue
+        dev = FixedIO(stdin)
+        try:
+            with quiet():
+                st = fn([src], memory_width=w, use_stl=not no_stl, fjm_version=FJMVersion(version), warning_as_errors=werror, io_device=dev,
+                        print_time=False, print_termination=False)
+            out[name] = (str(st.termination_cause), dev.get_output(allow_incomplete_output=True))
+        except Exception as e:  # noqa
+            out[name] = (f'{type(e).__name__}: {str(e)[:100]}', b'')
+    fn = getattr(flipjump, 'assemble_and_run_test_output', None)
+    if fn is not None:
+        try:
+            with quiet():
+                ok = fn([src], stdin, exp_out, memory_width=w, use_stl=not no_stl, fjm_version=FJMVersion(version), warning_as_errors=werror,
+                        print_time=False, print_termination=False)
+            out['assemble_and_run_test_output'] = ('looping', exp_out) if ok else ('returned False', b'')
+        except Exception as e:  # noqa
+            out['assemble_and_run_test_output'] = (f'{type(e).__name__}: {str(e)[:100]}', b'')
+    return out
+
+
 def check_config(cfg, wd, sieve, stats):
     prog, w, v, d, we, pr, s = cfg
     text, no_stl, stdin, exp_out = PROGRAMS[prog]
+    if exp_out is None:
+        exp_out = b'%d\n' % (w // 8)
     case = {'program': prog, 'w': w, 'version': v, 'debug': d, 'werror': we, 'preset': pr, 'silent': s}
 
     def bad(kind, expected, observed):
@@ -149,6 +182,12 @@ def check_config(cfg, wd, sieve, stats):
     except Exception as e:  # noqa
         bad('python API failed', 'assembles and runs', f'{type(e).__name__}: {str(e)[:200]}')
         return
+    # the combined API wrappers must honour the same options
+    if pr is None and d is None:
+        for wname, res in api_wrappers(src, w, eff_version, no_stl, we, stdin, exp_out).items():
+            stats['cli_runs'] += 1
+            if res != ('looping', exp_out):
+                bad(f'API wrapper {wname} disagrees with the other routes', ['looping', exp_out.decode('latin1')], [res[0], res[1].decode('latin1') if isinstance(res[1], bytes) else res[1]])
     stats['configs'] += 1
     if len(set(files.values())) != 1:
         sizes = {k: len(x) for k, x in files.items()}
